@@ -271,9 +271,10 @@ static void schedule(void)
 			if (enabled(i)) { if (!(ending && T[i].idle_streak >= 3)) cand[n++] = i; }
 			if (T[i].nsb && (solo < 0 || 1)) cand[n++] = MAXT + i;
 			if (solo < 0 && sighandler && sig_budget > 0 && sig_at < 0 && T[i].state == ST_RUN && !T[i].daemon && T[i].sig_ok && !T[i].sigblocked && T[i].in_sig < sig_nest_max && T[i].primed
-			    && T[i].nsb == 0) cand[n++] = 2 * MAXT + i;	/* delivery goes through the kernel: full barrier */
+			    && T[i].nsb == 0 && sig_futex < 2) cand[n++] = 2 * MAXT + i;	/* delivery goes through the kernel: full barrier */
 			if (solo < 0 && T[i].state == ST_BLOCK_FUTEX && !T[i].woken && (spur_budget > 0 || eintr_budget > 0)) cand[n++] = 3 * MAXT + i;
-			/* VRT_SIG_FUTEX=1: a signal may also hit a thread asleep in FUTEX_WAIT: the handler runs, then the wait returns EINTR (no SA_RESTART) */
+			/* VRT_SIG_FUTEX=1: a signal may also hit a thread asleep in FUTEX_WAIT: the handler runs, then the wait returns EINTR (no SA_RESTART);
+			 * VRT_SIG_FUTEX=2: signals are delivered ONLY to threads asleep in FUTEX_WAIT (directed runs: the budget is kept for a sleeper) */
 			if (solo < 0 && sig_futex && sighandler && sig_budget > 0 && sig_at < 0 && T[i].state == ST_BLOCK_FUTEX && !T[i].woken && !T[i].daemon && T[i].sig_ok
 			    && !T[i].sigblocked && T[i].in_sig < sig_nest_max && T[i].nsb == 0) cand[n++] = 2 * MAXT + i;
 		}
